@@ -70,7 +70,18 @@ type model15 struct {
 	nextID  int
 	fnEvals map[string]int
 	tree    map[string]cachedS // contextual instances of the Get invocation in progress
+	// armedUnknown: an operation was not judged (its result depended on an entity constructed before an
+	// override), so the model does not know which user callbacks it invoked and how far the countdowns of the
+	// armed failures have run: from then on nothing that hangs on an armed callback is judged
+	armedUnknown bool
+	// lost: a service that was cached as shared, and whose result is no longer judged because something below
+	// it was overridden, has meanwhile become contextual or non_shared through that override: the real
+	// container re-creates it (evaluating parameters, invoking callbacks) where the model only has the stale
+	// entry. The model has lost track of what is cached; nothing is judged until the next New.
+	lost bool
 }
+
+func (m *model15) hasArmed(name string) bool { return len(m.armed[name]) > 0 }
 
 // beginTree starts a top-level Get: contextual instances are per invocation.
 func (m *model15) beginTree() { m.tree = map[string]cachedS{} }
@@ -135,6 +146,7 @@ func newModel15(cfg *gen.Cfg) *model15 {
 
 func (m *model15) construct() {
 	m.up = true
+	m.lost = false
 	m.pdefs, m.pcache, m.sdefs, m.scache = map[string]pdef{}, map[string]cachedP{}, map[string]sdef{}, map[string]cachedS{}
 	for _, p := range m.cfg.Params {
 		m.pdefs[p.Name] = pdef{kind: "orig", arg: p.V}
@@ -206,6 +218,9 @@ func (m *model15) chunk(c gen.Chunk) (any, bool, *merr) {
 		return nil, false, &merr{todo: true, msg: msg}
 	case "fn":
 		m.fnEvals[c.Def]++
+		if m.armedUnknown && m.hasArmed("fn:"+c.Def) {
+			return "fn(" + c.Def + ")", true, nil // not judged
+		}
 		if m.fails("fn:" + c.Def) {
 			return nil, false, &merr{text: "injected"}
 		}
@@ -291,6 +306,9 @@ func (m *model15) service(name string) (*mnode, bool, *merr) {
 		return nil, false, &merr{text: "service does not exist"}
 	}
 	if c, ok := m.scache[name]; ok {
+		if c.tainted && m.effScope(name, map[string]bool{}) != "shared" {
+			m.lost, m.armedUnknown = true, true
+		}
 		return c.n, c.tainted, nil
 	}
 	eff := m.effScope(name, map[string]bool{})
@@ -343,7 +361,9 @@ func (m *model15) service(name string) (*mnode, bool, *merr) {
 			e := *firstErr
 			return nil, false, &e
 		}
-		if strings.HasSuffix(s.Ctor, "NewNodeE") && m.fails("ctor:"+name) {
+		if strings.HasSuffix(s.Ctor, "NewNodeE") && m.armedUnknown && m.hasArmed("ctor:"+name) {
+			taint = true // not judged: the countdown of the armed failure is unknown
+		} else if strings.HasSuffix(s.Ctor, "NewNodeE") && m.fails("ctor:"+name) {
 			return nil, false, &merr{text: "injected"}
 		}
 	}
